@@ -19,6 +19,7 @@ import (
 	"github.com/criyle/go-sandbox/pkg/mount"
 	"github.com/criyle/go-sandbox/pkg/seccomp"
 	"github.com/criyle/go-sandbox/pkg/seccomp/libseccomp"
+	"github.com/criyle/go-sandbox/ptracer"
 	"github.com/criyle/go-sandbox/runner"
 	"github.com/criyle/go-sandbox/runner/ptrace"
 	"github.com/criyle/go-sandbox/runner/unshare"
@@ -63,6 +64,31 @@ func allowAllFilter() seccomp.Filter {
 		allowFilter = f
 	})
 	return allowFilter
+}
+
+// slowBan soft-bans every path syscall it is asked about, after a short pause
+type slowBan struct{}
+
+func (slowBan) pause() ptracer.TraceAction                { time.Sleep(3 * time.Millisecond); return ptracer.TraceBan }
+func (b slowBan) CheckRead(string) ptracer.TraceAction    { return b.pause() }
+func (b slowBan) CheckWrite(string) ptracer.TraceAction   { return b.pause() }
+func (b slowBan) CheckStat(string) ptracer.TraceAction    { return b.pause() }
+func (b slowBan) CheckSyscall(string) ptracer.TraceAction { return b.pause() }
+
+var (
+	banFilterV    seccomp.Filter
+	banFilterOnce sync.Once
+)
+
+func banFilter() seccomp.Filter {
+	banFilterOnce.Do(func() {
+		f, err := (&libseccomp.Builder{Trace: []string{"mkdir", "mkdirat"}, Default: libseccomp.ActionAllow}).Build()
+		if err != nil {
+			panic(err)
+		}
+		banFilterV = f
+	})
+	return banFilterV
 }
 
 func manyFiles(n int) []uintptr {
@@ -138,6 +164,25 @@ func c11One(probe, root string, c c11Case) c11Obs {
 		r := &ptrace.Runner{
 			Args: progArgs(probe, nonce, c.Prog), Env: []string{"PATH=/usr/bin:/bin"}, Files: manyFiles(c.NFiles),
 			Seccomp: allowAllFilter(), Handler: allowAll{},
+			Limit: runner.Limit{TimeLimit: 200 * time.Second, MemoryLimit: runner.Size(2 << 30)},
+		}
+		run = func(ctx context.Context) opResult { return classify(r.Run(ctx)) }
+	case "ptrace-ban":
+		// every mkdir of the program traps; the handler takes its time and answers with a soft ban, so a
+		// cancellation often finds the tracee in a seccomp stop with the handler still deciding
+		dir, err := os.MkdirTemp("", "verif-c11-ban-")
+		if err != nil {
+			o.Setup = err.Error()
+			return o
+		}
+		defer os.RemoveAll(dir)
+		prog := []string{probe, nonce, "mkdirs:" + dir + ":1000000"}
+		if c.Prog == "quick" {
+			prog = []string{probe, nonce, "mkdirs:" + dir + ":4", "exit:7"}
+		}
+		r := &ptrace.Runner{
+			Args: prog, Env: []string{"PATH=/usr/bin:/bin"}, Files: manyFiles(c.NFiles),
+			Seccomp: banFilter(), Handler: slowBan{},
 			Limit: runner.Limit{TimeLimit: 200 * time.Second, MemoryLimit: runner.Size(2 << 30)},
 		}
 		run = func(ctx context.Context) opResult { return classify(r.Run(ctx)) }
